@@ -96,6 +96,7 @@ package datamodel
 //@   ensures err == nil ==> r != nil
 //@   ensures vkind(recv.val) == Kind_Map && err == nil ==> 0 <= vidx(recv.val, key) && vidx(recv.val, key) < vlen(recv.val) && r.val == vchild(recv.val, vidx(recv.val, key))
 //@   ensures vkind(recv.val) == Kind_Map && !(0 <= vidx(recv.val, key) && vidx(recv.val, key) < vlen(recv.val)) ==> err != nil
+//@   ensures vkind(recv.val) == Kind_Map && 0 <= vidx(recv.val, key) && vidx(recv.val, key) < vlen(recv.val) ==> err == nil
 //@   ensures vkind(recv.val) != Kind_Map && vkind(recv.val) != Kind_List ==> err != nil
 
 //@ interface Node.LookupByIndex(idx) (r, err)
